@@ -276,6 +276,14 @@ func propSpecs() map[string]*PropSpec {
 	for _, i := range tlQuick {
 		cm(c16, "H_C16", 1, int64(i), fmt.Sprintf("TL[%d]", i), "quick")
 	}
+	for n := int64(1); n <= 2; n++ {
+		cm(c16, "H_C16_cut", 0, n, fmt.Sprintf("F(%d), the document arriving in two reads cut at every position", n), "quick")
+	}
+	for _, i := range []int64{29, 39, 44, 53} {
+		cm(c16, "H_C16_cut", 6, i, fmt.Sprintf("TL[%d] with CRLF line endings, two reads cut at every position", i), "quick")
+		cm(c16, "H_C16_cut", 7, i, fmt.Sprintf("TL[%d] with bare-CR line endings, two reads cut at every position", i), "quick")
+	}
+	cm(c16, "H_C16_cut", 0, 3, "F(3), two reads cut at every position", "thorough")
 	for _, i := range []int64{36, 37, 38, 42, 43, 45, 46, 47, 50, 52, 55, 57, 58} {
 		cm(c16, "H_C16", 1, i, fmt.Sprintf("TL[%d]", i), "thorough")
 	}
@@ -295,6 +303,13 @@ func propSpecs() map[string]*PropSpec {
 		cm(c14, "H_C14_final", 4, i, fmt.Sprintf("final-newline clause, C14 template %d", i), "quick")
 		cm(c14, "H_C14_eol", 4, i, fmt.Sprintf("line-ending clause, C14 template %d", i), "quick")
 	}
+	for n := int64(1); n <= 2; n++ {
+		cm(c14, "H_C14_eol_stream", 0, n, fmt.Sprintf("line-ending clause through the streaming parser, F(%d), input cut into two reads at every position", n), "quick")
+	}
+	for _, i := range []int64{3, 5, 8, 9, 10, 11} {
+		cm(c14, "H_C14_eol_stream", 4, i, fmt.Sprintf("line-ending clause through the streaming parser, C14 template %d, every cut", i), "quick")
+	}
+	cm(c14, "H_C14_eol_stream", 0, 3, "line-ending clause through the streaming parser, F(3), every cut", "thorough")
 	cm(c14, "H_C14_eol", 0, 4, "line-ending clause, F(4)", "thorough")
 	cm(c14, "H_C14_final", 0, 4, "final-newline clause, F(4)", "thorough")
 	add(c14)
@@ -392,7 +407,7 @@ func propSpecs() map[string]*PropSpec {
 	cm(c06, "H_C06", 1, 0, "documents of <= 1 node, LF, reduced menus", "quick")
 	cm(c06, "H_C06", 2, 0, "documents of <= 2 nodes, LF, reduced menus", "quick")
 	cm(c06, "H_C06", 2, 1, "documents of <= 2 nodes, CRLF, reduced menus", "quick")
-	cm(c06, "H_C06", 2, 2, "documents of <= 2 nodes, LF, full menus", "quick")
+	cm(c06, "H_C06", 2, 2, "documents of <= 2 nodes, LF, full menus", "thorough")
 	cm(c06, "H_C06", 3, 0, "documents of <= 3 nodes, LF, reduced menus", "quick")
 	cm(c06, "H_C06", 3, 1, "documents of <= 3 nodes, CRLF, reduced menus", "thorough")
 	cm(c06, "H_C06", 3, 2, "documents of <= 3 nodes, LF, full menus", "thorough")
@@ -430,6 +445,15 @@ func propSpecs() map[string]*PropSpec {
 		fm(c20, "H_C20_total", n, 6, fmt.Sprintf("F(%d), writer failing at call k in 1..6", n), "quick")
 	}
 	fm(c20, "H_C20_total", 4, 12, "F(4), writer failing at call k in 1..12", "thorough")
+	for _, k := range []int64{1, 2, 8, 9} {
+		fm(c20, "H_C20_marker", k, 0, fmt.Sprintf("ordered item with a %d-digit number (digits free) + second paragraph", k), "quick")
+	}
+	fm(c20, "H_C20_marker", 9, 1, "ordered item with a 9-digit number + fenced code", "quick")
+	fm(c20, "H_C20_marker", 9, 2, "ordered item with a 9-digit number + nested bullet list", "quick")
+	for k := int64(3); k <= 7; k++ {
+		fm(c20, "H_C20_marker", k, 0, fmt.Sprintf("ordered item with a %d-digit number + second paragraph", k), "thorough")
+	}
+	fm(c20, "H_C20_marker", 9, 3, "ordered item with a 9-digit number + block quote", "thorough")
 	fm(c20, "H_C20_canon", 1, 0, "canonical documents of <= 1 node, reduced menus", "quick")
 	fm(c20, "H_C20_canon", 2, 0, "canonical documents of <= 2 nodes, reduced menus", "quick")
 	fm(c20, "H_C20_canon", 2, 2, "canonical documents of <= 2 nodes, full menus", "quick")
